@@ -577,7 +577,9 @@ Section OneLevel.
   Hypothesis Hne : parts <> [].
   Hypothesis Hshape : Forall (fun p => shape_of p = Some bs) parts.
   Hypothesis Hsound : Forall (fun p => sound p bs) parts.
-  Hypothesis HG : forall m sub x, In m parts -> is_stack m = true -> G m sub = Ok x -> equiv x (Index sub m).
+  Variable Psub : list item -> Prop.     (* what is known of the sub-indices handed to nested lazy members *)
+  Hypothesis HG : forall m sub x rs, In m parts -> is_stack m = true -> Psub sub -> res_shape sub bs = Some rs ->
+                                     G m sub = Ok x -> equiv x (Index sub m).
 
   Lemma shape_self : shape_of self = Some shape.
   Proof.
@@ -585,13 +587,13 @@ Section OneLevel.
     unfold bs. rewrite <- HS1 at 1. rewrite insert_at_app. reflexivity.
   Qed.
 
-  Lemma rmap_members sub : forall js xs,
+  Lemma rmap_members sub rs0 : Psub sub -> res_shape sub bs = Some rs0 -> forall js xs,
     rmap (fun e : Z * list item => let '(i, sub) := e in rbind (member parts i) (fun m => m_get_or_self G m sub))
          (map (fun j => (j, sub)) js) = Ok xs ->
     exists ms, Forall2 (fun j m => member parts j = Ok m) js ms /\
                Forall2 (fun m x => equiv x (Index sub m)) ms xs.
   Proof.
-    induction js as [|j js IH]; intros xs H; cbn [map rmap] in H.
+    intros HPs Hrs0. induction js as [|j js IH]; intros xs H; cbn [map rmap] in H.
     - inversion H. exists []. split; constructor.
     - apply rbind_ok in H. destruct H as [x [Hx H]].
       apply rbind_ok in Hx. destruct Hx as [m [Em Ex]].
@@ -625,12 +627,12 @@ Section OneLevel.
 
   (* the slice case: lazy[pre, a:b:c, post] *)
   Theorem getitem_slice pre a b c post a' rsd :
-    basic pre -> consumed pre = sd -> Forall post_item post ->
+    basic pre -> consumed pre = sd -> Forall post_item post -> Psub (pre ++ post) ->
     res_shape (pre ++ ISl a b c :: post) shape = Some rsd ->          (* the index is legal on the dense stack *)
     getitem_body G self sd bs0 parts shape (pre ++ ISl a b c :: post) = Ok a' ->
     equiv a' (Index (pre ++ ISl a b c :: post) self).
   Proof.
-    intros HB HC HP Hlegal H.
+    intros HB HC HP HPs Hlegal H.
     assert (HNpre : noell pre) by (apply basic_noell; exact HB).
     assert (HCpre : consumed pre = List.length S1) by lia.
     (* decompose the legality of the index *)
@@ -651,13 +653,13 @@ Section OneLevel.
     unfold nonneg_nat in H. replace (Z.of_nat (rdims_l pre) <? 0) with false in H by lia. cbn [rbind] in H.
     rewrite Nat2Z.id in H. set (nsd := rdims_l pre) in *.
     apply rbind_ok in H. destruct H as [xs [Er H]].
-    destruct (rmap_members (pre ++ post) _ _ Er) as [ms [F1 F2]].
+    assert (Hrs : res_shape (pre ++ post) bs = Some (ra ++ rb)).
+    { unfold bs. rewrite (res_shape_app pre HNpre S1 S2 post HCpre), Era, Erb. reflexivity. }
+    destruct (rmap_members (pre ++ post) _ HPs Hrs _ _ Er) as [ms [F1 F2]].
     destruct xs as [|x0 xs]; [discriminate|]. inversion H as [Ha']. clear H.
     pose proof (members_shape _ _ F1) as Hms.
     pose proof shape_self as Hself.
     assert (Hnsd : List.length ra = nsd) by (eapply res_shape_exact; eauto).
-    assert (Hrs : res_shape (pre ++ post) bs = Some (ra ++ rb)).
-    { unfold bs. rewrite (res_shape_app pre HNpre S1 S2 post HCpre), Era, Erb. reflexivity. }
     destruct (stack_of_indexed nsd bs0 (pre ++ post) bs (ra ++ rb) ms (x0 :: xs) F2 Hms Hrs
                 ltac:(rewrite app_length; lia) ltac:(discriminate)) as [Hsh Hat].
     assert (Hlen : lenZ (x0 :: xs) = range_len t).
@@ -702,12 +704,12 @@ Section OneLevel.
 
   (* the int case: lazy[pre, j, post] is member j indexed by the rest *)
   Theorem getitem_int pre j post a' rsd :
-    basic pre -> consumed pre = sd -> Forall post_item post ->
+    basic pre -> consumed pre = sd -> Forall post_item post -> Psub (pre ++ post) ->
     res_shape (pre ++ IInt j :: post) shape = Some rsd ->
     getitem_body G self sd bs0 parts shape (pre ++ IInt j :: post) = Ok a' ->
     equiv a' (Index (pre ++ IInt j :: post) self).
   Proof.
-    intros HB HC HP Hlegal H.
+    intros HB HC HP HPs Hlegal H.
     assert (HNpre : noell pre) by (apply basic_noell; exact HB).
     assert (HCpre : consumed pre = List.length S1) by lia.
     unfold shape in Hlegal. rewrite (res_shape_app pre HNpre S1 _ _ HCpre) in Hlegal.
@@ -730,7 +732,8 @@ Section OneLevel.
     assert (Heq : equiv a' (Index (pre ++ post) m)).
     { apply (m_get_or_self_equiv G m (pre ++ post) a' bs Hm).
       - apply (proj1 (Forall_forall _ _) Hsound). exact Hin.
-      - intros. eapply HG; eauto.
+      - intros. eapply (HG m (pre ++ post) a' (ra ++ rb)); eauto.
+        unfold bs. rewrite (res_shape_app pre HNpre S1 S2 post HCpre), Era, Erb. reflexivity.
       - exact Hx. }
     apply (equiv_trans _ _ _ Heq). clear Heq Hx.
     pose proof shape_self as Hself.
@@ -763,12 +766,12 @@ Section OneLevel.
 
   (* the index stops before the stack dim: lazy[idx] is the stack of member[idx], the stack dim moved by the dims idx adds/removes *)
   Theorem getitem_short idx a' rsd :
-    basic idx -> (consumed idx <= sd)%nat ->
+    basic idx -> (consumed idx <= sd)%nat -> Psub idx ->
     res_shape idx shape = Some rsd ->
     getitem_body G self sd bs0 parts shape idx = Ok a' ->
     equiv a' (Index idx self).
   Proof.
-    intros HB HC Hlegal H.
+    intros HB HC HPs Hlegal H.
     assert (HN : noell idx) by (apply basic_noell; exact HB).
     set (c := consumed idx) in *.
     assert (ES1 : S1 = firstn c S1 ++ skipn c S1) by (symmetry; apply firstn_skipn).
@@ -789,13 +792,13 @@ Section OneLevel.
     unfold nonneg_nat in H. replace (Z.of_nat (rdims_l idx + (sd - c)) <? 0) with false in H by lia. cbn [rbind] in H.
     rewrite Nat2Z.id in H. set (rd := rdims_l idx) in *. set (nsd := (rd + (sd - c))%nat) in *.
     apply rbind_ok in H. destruct H as [xs [Er H]].
-    destruct (rmap_members idx _ _ Er) as [ms [F1 F2]].
+    assert (Hrs : res_shape idx bs = Some (ra ++ (Sb ++ S2))).
+    { rewrite Ebs. rewrite (res_shape_tail idx HN Sa _ HCa), Era. reflexivity. }
+    destruct (rmap_members idx _ HPs Hrs _ _ Er) as [ms [F1 F2]].
     destruct xs as [|x0 xs]; [discriminate|]. inversion H as [Ha']. clear H.
     pose proof (members_shape _ _ F1) as Hms.
     pose proof shape_self as Hself.
     assert (Hra : List.length ra = rd) by (eapply res_shape_exact; eauto).
-    assert (Hrs : res_shape idx bs = Some (ra ++ (Sb ++ S2))).
-    { rewrite Ebs. rewrite (res_shape_tail idx HN Sa _ HCa), Era. reflexivity. }
     destruct (stack_of_indexed nsd bs0 idx bs (ra ++ (Sb ++ S2)) ms (x0 :: xs) F2 Hms Hrs
                 ltac:(rewrite !app_length; unfold nsd; lia) ltac:(discriminate)) as [Hsh Hat].
     assert (Hlen : lenZ (x0 :: xs) = lenZ parts).
